@@ -1,7 +1,7 @@
 (* Properties/C11.v — distances and paths are valid walks of minimal length (C11).
    spec_C11 compares every reported distance with [sd] over the reported parent links and checks
    every reported path link by link; these theorems say what [sd] is. *)
-From HpoV Require Import Model.Base Run.World Run.C01 Run.C11 Proofs.C11P.
+From HpoV Require Import Gen.Consts Model.Base Model.Group Model.Onto Model.Query Run.World Run.C01 Run.C11 Proofs.C11P Proofs.ClosureP Proofs.DistP.
 
 Theorem C11_distance_is_a_chain_length : forall ts b fuel a d, sd fuel ts a b = Some d ->
   exists l, is_chain ts a l = true /\ last l a = b /\ Nlen l = d.
@@ -14,6 +14,28 @@ Proof. exact sd_minimal. Qed.
 Theorem C11_chain_is_walk : forall ts l a, is_chain ts a l = true -> is_walk ts a l = true.
 Proof. exact is_walk_of_chain. Qed.
 
+(* ---- about the Gallina transcription of HpoTerm::distance_to_ancestor (Model/Query.v), for
+   EVERY ontology whose ancestor caches are exact (C01), every fuel ---- *)
+
+(* the returned distance is the length of an actual chain of parent links ... *)
+Theorem C11_model_distance_is_a_chain : forall o, qgood o -> forall fuel ta tb d, In ta (ar_terms (o_arena o)) ->
+  dist_anc fuel o ta tb = Ok (Some d) -> chain (o_arena o) (t_id ta) (N.to_nat d) (t_id tb).
+Proof. exact dist_anc_sound. Qed.
+
+(* ... no chain is shorter, and the cache-based pruning never cuts a reachable target ... *)
+Theorem C11_model_distance_is_minimal : forall o, qgood o -> forall fuel ta tb r, In ta (ar_terms (o_arena o)) ->
+  dist_anc fuel o ta tb = Ok r ->
+  forall n, chain (o_arena o) (t_id ta) n (t_id tb) -> exists d, r = Some d /\ (N.to_nat d <= n)%nat.
+Proof. exact dist_anc_minimal. Qed.
+
+(* ... and None exactly when the target is neither the term nor one of its ancestors *)
+Theorem C11_model_distance_none : forall o, qgood o -> forall fuel ta tb, In ta (ar_terms (o_arena o)) ->
+  dist_anc fuel o ta tb = Ok None -> t_id ta <> t_id tb /\ ~ anc (o_arena o) (t_id ta) (t_id tb).
+Proof. exact dist_anc_none. Qed.
+
 Print Assumptions C11_distance_is_a_chain_length.
 Print Assumptions C11_distance_is_minimal.
 Print Assumptions C11_chain_is_walk.
+Print Assumptions C11_model_distance_is_a_chain.
+Print Assumptions C11_model_distance_is_minimal.
+Print Assumptions C11_model_distance_none.
